@@ -16,7 +16,7 @@ META = {
                    "inverse, decode order equals the encoder's sort order, at most 4 entries; quantisers: round-half-away, same resolution both ways, "
                    "pattern round trip bound (Q-quant). Multiset equality follows from these under the property's precondition (distinct recognised "
                    "signals); it is not checked end to end."
-                   "(B-sem) the bit-exact reading of put / parse these clauses stand on (field bits MSB first at the cursor, nothing else touched) is the abstract interpretation of C07, imported and decided here too. (S-sem) likewise the two's-complement reading of the signed bias carriers.",
+                   "(B-sem) the bit-exact reading of put / parse these clauses stand on (field bits MSB first at the cursor, nothing else touched) is the abstract interpretation of C07, imported and decided here too. (S-sem) likewise the two's-complement reading of the signed bias carriers. Completeness: in the write loops only an unrecognised signal skips an entry and every other entry reaches both writes; in the decode loops every entry with a recognised id (1230: every index whose mask bit is set) is pushed, and the decoded list is mutated by those pushes only.",
     "assumptions": [],
 }
 
